@@ -19,8 +19,12 @@ OUTSIDE = "YAML/TOML parser internals"
 
 
 def scenarios(tier):
-    return [dict(name="spellings", fn="run", params=dict(extra=tier != "quick"), cost=10),
-            dict(name="optional-sections", fn="optional", params={}, cost=1)]
+    out = [dict(name="spellings", fn="run", params=dict(extra=tier != "quick"), cost=10),
+           dict(name="optional-sections", fn="optional", params={}, cost=1)]
+    # spelling details: how the version is written, .yml suffix, '?' wildcard, extra_forcing
+    for k, (ver, suffix, wild) in enumerate([("2", ".yaml", "*"), ("2.0", ".yml", "?"), ('"2.0"', ".yaml", "*"), (None, ".yml", "?")]):
+        out.append(dict(name=f"variant-{k}", fn="run", params=dict(extra=False, version=ver, suffix=suffix, wild=wild, extra_forcing=True), cost=10))
+    return out
 
 
 def _tok(n):
@@ -33,14 +37,15 @@ def run(W, p):
     if p["extra"]:
         flags.update({k: W.truth(W.bool(k)) for k in ("extra_forcing", "diffusion")})
     else:
-        flags.update(extra_forcing=False, diffusion=True)
+        flags.update(extra_forcing=bool(p.get("extra_forcing")), diffusion=True)
     if flags["has_subgrid"] and not flags["has_grid"]:
         W.assume(False, "a subgrid needs a grid section")
     tmp = W.scratch()
     # forcing files created in reverse order so that an unsorted glob would pick the wrong one
     for n in ("ocean_003.nc", "ocean_001.nc", "ocean_002.nc"):
         (tmp / n).touch()
-    forcing_name = str(tmp / ("ocean_*.nc" if flags["wildcard"] else "ocean_001.nc"))
+    wild = p.get("wild", "*")
+    forcing_name = str(tmp / (("ocean_*.nc" if wild == "*" else "ocean_00?.nc") if flags["wildcard"] else "ocean_001.nc"))
     gridfile = str(tmp / "grid.nc")
     (tmp / "grid.nc").touch()
     dt, outv, freqv, diff = _tok(1), _tok(2), _tok(3), _tok(4)
@@ -50,7 +55,8 @@ def run(W, p):
     start, stop, ref = "2000-01-04 00:00:00", "2000-01-09 00:00:00", "1999-12-31 00:00:00"
 
     # ---------------------------------------------------------------- version 2, YAML
-    y2 = ["version: 2", "time:", f"    start: {start}", f"    stop: {stop}", f"    dt: {dt}"]
+    ver = p.get("version", "2")
+    y2 = ([f"version: {ver}"] if ver is not None else []) + ["time:", f"    start: {start}", f"    stop: {stop}", f"    dt: {dt}"]
     if flags["has_ref"]:
         y2.append(f"    reference: {ref}")
     if flags["has_grid"]:
@@ -82,7 +88,7 @@ def run(W, p):
     def tq(s):
         return '"' + s + '"'
 
-    t2 = ["version = 2", "[time]", f"start = {start.replace(' ', 'T')}", f"stop = {stop.replace(' ', 'T')}", f"dt = {dt}"]
+    t2 = ([f"version = {ver}"] if ver is not None else []) + ["[time]", f"start = {start.replace(' ', 'T')}", f"stop = {stop.replace(' ', 'T')}", f"dt = {dt}"]
     if flags["has_ref"]:
         t2.append(f"reference = {ref.replace(' ', 'T')}")
     if flags["has_grid"]:
@@ -134,7 +140,8 @@ def run(W, p):
         y1 += ["    super: {ncformat: f4, long_name: number of individuals}"]
     y1 += ["numerics:", f"    dt: {dt}", "    advection: RK4", f"    diffusion: {diff if flags['diffusion'] else 0}"]
 
-    (tmp / "v2.yaml").write_text("\n".join(y2) + "\n")
+    ysuf = p.get("suffix", ".yaml")
+    (tmp / ("v2" + ysuf)).write_text("\n".join(y2) + "\n")
     (tmp / "v2.toml").write_text("\n".join(t2) + "\n")
     (tmp / "v1.yaml").write_text("\n".join(y1) + "\n")
     cwd = os.getcwd()
@@ -142,7 +149,7 @@ def run(W, p):
     real_path = conf.Path
     conf.Path = _adversarial_path(real_path)  # directory listings come in arbitrary order: return them reverse-sorted
     try:
-        c_y2 = conf.configure(tmp / "v2.yaml")
+        c_y2 = conf.configure(tmp / ("v2" + ysuf))
         c_t2 = conf.configure(tmp / "v2.toml")
         c_y1 = conf.configure(tmp / "v1.yaml")
     finally:
